@@ -29,6 +29,8 @@ using namespace QtLogger;
 static int g_jfd = -1;
 static int g_delayUs = 0;
 static std::atomic<int> g_nextId { 0 };
+static std::atomic<int> g_stallId { -1 }; // delivering this message takes g_stallMs (a sink that stalls: slow disk, network)
+static int g_stallMs = 0;
 
 static long tid() { return syscall(SYS_gettid); }
 static void jot(const char *fmt, long a = 0, long b = 0)
@@ -43,6 +45,7 @@ static bool sinkFn(LogMessage &m)
     if (g_delayUs > 0) usleep(useconds_t(g_delayUs));
     const QString t = m.message();
     const int p = t.indexOf(QLatin1String("id="));
+    if (p >= 0 && g_stallMs > 0 && t.mid(p + 3).toLong() == g_stallId.load()) usleep(useconds_t(g_stallMs) * 1000);
     if (p < 0) {
         // not one of ours: a diagnostic Qt itself emitted through the installed handler
         QByteArray w = "W " + t.toLatin1().replace('\n', ' ') + "\n";
@@ -130,7 +133,11 @@ int main(int argc, char **argv)
     }
 
     g_delayUs = sc["delayUs"].toInt();
-    for (int i = 0; i < sc["backlog"].toInt(); i++) s.log();
+    g_stallMs = sc["stallMs"].toInt();
+    for (int i = 0; i < sc["backlog"].toInt(); i++) {
+        if (i == sc["backlog"].toInt() - 1 && g_stallMs > 0) g_stallId = g_nextId.load(); // the last message of the backlog stalls
+        s.log();
+    }
 
     std::atomic<bool> go { false };
     std::vector<std::thread> racers;
